@@ -50,6 +50,9 @@ pub enum Shape {
     Rand256,
     TextLike,
     ZeroFF,
+    /// fixed-width records: a pad run of 257..400 equal bytes, then 1-3 varying bytes -- the same
+    /// long monotone run occurs many times with different continuations
+    PaddedRecords,
 }
 
 const SHAPES: &[Shape] = &[
@@ -66,11 +69,12 @@ const SHAPES: &[Shape] = &[
     Shape::Rand256,
     Shape::TextLike,
     Shape::ZeroFF,
+    Shape::PaddedRecords,
 ];
 
 /// shapes whose suffixes share very long prefixes (comparison sorts are quadratic on them)
 fn repetitive(s: Shape) -> bool {
-    matches!(s, Shape::Single | Shape::Runs | Shape::Periodic | Shape::Fib | Shape::ThueMorse | Shape::Rand1)
+    matches!(s, Shape::Single | Shape::Runs | Shape::Periodic | Shape::Fib | Shape::ThueMorse | Shape::Rand1 | Shape::PaddedRecords)
 }
 
 #[derive(Clone, Debug, Serialize, Deserialize)]
@@ -242,6 +246,18 @@ pub fn expand(shape: Shape, len: usize, seed: u64) -> Vec<u8> {
             const WORDS: &[&str] = &["the ", "quick ", "brown ", "fox ", "banana", "mississippi ", "abracadabra ", "ab", "abab", "a", "\n", "zipora "];
             while out.len() < len {
                 out.extend_from_slice(WORDS[r.below(WORDS.len() as u64) as usize].as_bytes());
+            }
+            out.truncate(len);
+        }
+        Shape::PaddedRecords => {
+            let pad = pick_sym(&mut r);
+            let width = 257 + r.below(144) as usize;
+            let al = rand_alphabet(&mut r, 3);
+            while out.len() < len {
+                out.extend(std::iter::repeat(pad).take(width));
+                for _ in 0..1 + r.below(3) {
+                    out.push(al[r.below(al.len() as u64) as usize]);
+                }
             }
             out.truncate(len);
         }
